@@ -164,6 +164,9 @@ func NewWorker(p *Program, cfg *Config) (*Worker, error) {
 	if err != nil {
 		return nil, err
 	}
+	if cfg.Trace {
+		s.Trace = os.Stderr
+	}
 	return &Worker{P: p, Cfg: cfg, Solver: s}, nil
 }
 
